@@ -18,6 +18,9 @@ struct Server { addr: SocketAddr, _permit: Permit, _exec: Arc<Executor>, _dir: T
 ///        /g/<code>  ask for the body (limit 1 MiB) while it is pending, then answer <code> with "len=<n>"
 ///        /d         drop the connection
 ///        /p         panic
+/// set: the server has no directory for large bodies (`receive_large_bodies` not called)
+static NOCACHE: std::sync::atomic::AtomicBool = std::sync::atomic::AtomicBool::new(false);
+fn nocache() -> bool { NOCACHE.load(std::sync::atomic::Ordering::SeqCst) }
 fn start(small: usize) -> Server {
     safina::timer::start_timer_thread();
     let permit = Permit::new();
@@ -38,8 +41,9 @@ fn start(small: usize) -> Server {
             _ => Response::text(200, "ok"),
         }
     };
-    let (addr, _stopped) = exec.block_on(HttpServerBuilder::new().listen_addr(socket_addr_127_0_0_1_any_port()).max_conns(100)
-        .small_body_len(small).receive_large_bodies(dir.path()).permit(permit.new_sub()).spawn(handler)).unwrap();
+    let b = HttpServerBuilder::new().listen_addr(socket_addr_127_0_0_1_any_port()).max_conns(100).small_body_len(small);
+    let b = if nocache() { b } else { b.receive_large_bodies(dir.path()) };
+    let (addr, _stopped) = exec.block_on(b.permit(permit.new_sub()).spawn(handler)).unwrap();
     Server { addr, _permit: permit, _exec: exec, _dir: dir, log }
 }
 fn exchange(s: &Server, send: &[u8]) -> Vec<u8> {
@@ -58,7 +62,7 @@ fn statuses(out: &[u8]) -> Vec<u16> {
 /// one scripted connection: a list of (kind, code, body length); kinds r g d p, and e = r with `Expect: 100-continue`
 /// (the client sends the body without waiting, as RFC 7231 5.1.1 allows)
 fn scenario(s: &Server, small: usize, reqs: &[(char, u16, usize)]) -> Option<String> {
-    let desc = format!("conn S={small} reqs={}", reqs.iter().map(|(k, c, l)| format!("{k}{c}:{l}")).collect::<Vec<_>>().join(","));
+    let desc = format!("conn S={small} reqs={}{}", reqs.iter().map(|(k, c, l)| format!("{k}{c}:{l}")).collect::<Vec<_>>().join(","), if nocache() { " nocache=1" } else { "" });
     let mut msg = Vec::new();
     for (i, (k, code, l)) in reqs.iter().enumerate() {
         let path = path_of(*k, *code);
@@ -171,6 +175,7 @@ fn main() {
             match shortbody(&s, small, g("kind").chars().next().unwrap(), g("len").parse().unwrap(), g("sent").parse().unwrap()) { Some(m) => { println!("WITNESS {m}"); std::process::exit(1) } None => { println!("OK witness no longer fails"); std::process::exit(0) } }
         }
         let (small, reqs) = parse(&args[2..].join(" "));
+        if w.contains(" nocache=1") { NOCACHE.store(true, std::sync::atomic::Ordering::SeqCst); }
         let s = start(small);
         match scenario(&s, small, &reqs) { Some(m) => { println!("WITNESS {m}"); std::process::exit(1) } None => { println!("OK witness no longer fails"); std::process::exit(0) } }
     }
@@ -188,6 +193,17 @@ fn main() {
             if sent >= l { continue; }
             n += 1; if let Some(w) = shortbody(&s, small, kind, l, sent) { if found.len() < 6 { found.push(w) } }
         }}}
+    }
+    {
+        // a server without a directory for large bodies: a handler that answers a pending body directly is still run once and
+        // its answer is the response (the missing directory matters only when the handler asks for the body)
+        NOCACHE.store(true, std::sync::atomic::Ordering::SeqCst);
+        let small = 10usize;
+        let s = start(small);
+        for (k, c) in [('r', 200u16), ('r', 404), ('r', 413), ('d', 0), ('p', 0), ('e', 200)] { for l in [0usize, small, small + 1, 500] {
+            n += 1; if let Some(w) = scenario(&s, small, &[(k, c, l)]) { if found.len() < 6 { found.push(w) } }
+        }}
+        NOCACHE.store(false, std::sync::atomic::Ordering::SeqCst);
     }
     {
         let s = start(100);
